@@ -36,6 +36,8 @@ type RelayAddressGeneratorPortRange struct {
 	Address string
 
 	Net transport.Net
+
+	listenerPorts relayListenerPorts
 }
 
 // Validate is called on server startup and confirms the RelayAddressGenerator is properly configured.
@@ -138,7 +140,9 @@ func (r *RelayAddressGeneratorPortRange) AllocateListener( // nolint: cyclop
 			return nil, nil, err
 		}
 
-		ln, err := listenConfig.Listen(context.TODO(), conf.Network, tcpAddr.String())
+		ln, err := r.listenerPorts.listen(port, func() (net.Listener, error) {
+			return listenConfig.Listen(context.TODO(), conf.Network, tcpAddr.String())
+		})
 		if err != nil {
 			return nil, nil, err
 		}
